@@ -398,7 +398,9 @@ def extendLoop (pulls : Bool) : List (K × V) → SM K V Q Unit
   | [] => if pulls then pullSrc else pure ()      -- the final `next` returning `None`
   | (k, v) :: rest => do
     if pulls then unwindWith (dropList E ((k, v) :: rest)) pullSrc
-    let _ ← unwindWith (dropList E rest) (insert E k v)
+    match ← unwindWith (dropList E rest) (insert E k v) with
+    | some old => unwindWith (dropList E rest) (dropV E old)   -- `m.insert(k, v);` discards the old value
+    | none => pure ()
     extendLoop pulls rest
 
 /-- `from_iter`: runs with `s.r = Raw.new cap` (the local `m`); on unwinding the
